@@ -121,6 +121,8 @@ type respWriter struct {
 	// visible to the client, as a slow link would make it.
 	firstFlushLag time.Duration
 	flushed       bool
+	// lagOnlyAccepted: the lag applies only if the response is a 202 (see Transport.FlushLagOnPOST)
+	lagOnlyAccepted bool
 }
 
 func (w *respWriter) Header() http.Header { return w.header }
@@ -182,9 +184,13 @@ func (w *respWriter) Flush() {
 	w.flushLocked()
 	first := !w.flushed
 	w.flushed = true
+	lag := w.firstFlushLag
+	if w.lagOnlyAccepted && w.e.status != http.StatusAccepted {
+		lag = 0 // (POST responses: only the bodiless 202 acknowledgements are slowed down)
+	}
 	w.e.mu.Unlock()
-	if first && w.firstFlushLag > 0 {
-		time.Sleep(w.firstFlushLag)
+	if first && lag > 0 {
+		time.Sleep(lag)
 	}
 }
 
@@ -269,6 +275,10 @@ type Transport struct {
 	// FirstFlushLag, if positive, makes the first Flush of every GET response return that long after its
 	// data reached the client (the client can act on an SSE "endpoint" event before the server goes on).
 	FirstFlushLag time.Duration
+	// FlushLagOnPOST extends FirstFlushLag to the 202 acknowledgements of POST requests (an instrumented or
+	// proxied ResponseWriter whose Flush takes a moment). Other POST responses are left alone: the SDK flushes
+	// event streams while it holds a plain mutex, and a sleeping holder stalls a bubble's clock.
+	FlushLagOnPOST bool
 	// DieAfterWrites, if set, is asked for every request: n >= 0 means the client of that exchange vanishes
 	// unnoticed (as with CutQuietly) after the handler's first n writes to the response: write n+1 fails.
 	DieAfterWrites func(req *http.Request) int
@@ -343,8 +353,9 @@ func (t *Transport) RoundTrip(req *http.Request) (*http.Response, error) {
 		sreq.Body = http.NoBody
 	}
 	w := &respWriter{e: e, header: http.Header{}}
-	if req.Method == "GET" {
+	if req.Method == "GET" || t.FlushLagOnPOST {
 		w.firstFlushLag = t.FirstFlushLag
+		w.lagOnlyAccepted = req.Method != "GET"
 	}
 
 	go func() {
